@@ -206,15 +206,26 @@ def run_case(w, base, idx, mods, order, forms, settings):
     d = os.path.join(base, "g%d" % idx)
     shutil.rmtree(d, ignore_errors=True)
     write_graph(d, mods)
+    rt = Runtime(mods, settings["run_import_tests"])
+    model_root(rt, order, forms)
+    # top-level imports of a module that is loaded by then (nothing runs again): with top-level exporting they end up in the
+    # exports map under the names they were bound to
+    loaded = [m.name for m in mods if (m.name, "dir" if m.kind == "dir" else "file") in rt.cache]
     text = root_script(order, forms)
+    top = None
+    if loaded:
+        top = loaded[idx % len(loaded)]
+        text += "from %s import x_%s as top_y\nimport %s as top_alias\nfrom %s import x_%s\nprint 'top-imports {top_y} {x_%s}'\n" % (top, top, top, top, top, top)
+        rt.out.append("top-imports val_%s val_%s" % (top, top))
     path = os.path.join(d, "root.koto")
     open(path, "w").write(text)
     r = w.exec(text, timeout=30, limit_ms=8000, path=path, run_import_tests=settings["run_import_tests"], export_top=settings["export_top"], want_exports=True)
-    rt = Runtime(mods, settings["run_import_tests"])
-    model_root(rt, order, forms)
     want_exports = {"from_root": "r"}
     if settings["export_top"]:
         want_exports = {"from_root": "changed locally", "plain_top": "8"}
+        if top:
+            want_exports["top_y"] = "val_" + top
+            want_exports["x_" + top] = "val_" + top
     got_out = r.get("stdout", "").split("\n")
     if got_out and got_out[-1] == "":
         got_out.pop()
@@ -230,6 +241,8 @@ def run_case(w, base, idx, mods, order, forms, settings):
     for k, v in want_exports.items():
         if ex.get(k) != v:
             problems.append("export %s: host sees %r, expected %r" % (k, ex.get(k), v))
+    if settings["export_top"] and top and "top_alias" not in ex:
+        problems.append("export top_alias (import %s as top_alias at the top level) is missing; the host sees %s" % (top, sorted(ex)[:8]))
     if not settings["export_top"]:
         extra = [k for k in ex if k not in want_exports]
         if extra:
